@@ -3,6 +3,7 @@ import faulthandler
 import importlib
 import json
 import logging
+import os
 import resource
 import sys
 
@@ -21,6 +22,11 @@ def main():
     acc = getattr(mod, func)(batch)
     with open(fout, "w") as f:
         json.dump(acc.to_json(), f, default=repr)
+        f.flush()
+        os.fsync(f.fileno())
+    sys.stdout.flush()
+    sys.stderr.flush()
+    os._exit(0)         # real-thread batches: a stuck non-daemon thread of the code under test must not keep the worker alive
 
 
 if __name__ == "__main__":
